@@ -322,25 +322,25 @@ def corr_loop(chk, tools, simutils, pagingtracer, classes):
 CONFIGS = [(m, f, c, p) for m in ('48K', '128K') for f in ('szx', 'z80') for c in (False, True) for p in (False, True)]
 
 
-def report(chk, tools, cfg, img, regs, hw, n, bad, origin, by_options=False):
+def report(chk, tools, cfg, img, regs, hw, n, bad, origin, by_options=False, extra=()):
     for n1, d, kind in bad:
         if n1 == 'error':
             chk.note(f'e2e: trace.main failed on a generated case ({origin}): {d[0][:200]}')
             chk.violation(f'trace-crash:{cfg[1]}:{cfg[0]}', f'trace.main raised on a generated program: {d[0][:300]}',
-                          E.replay_data(cfg, img, regs, hw, n, n1 if n1 != 'error' else 1, by_options))
+                          E.replay_data(cfg, img, regs, hw, n, n1 if n1 != 'error' else 1, by_options, extra))
             continue
         machine, fmt, cmio, py = cfg
         what = f'{machine} {fmt} {"-c " if cmio else ""}{"--python " if py else ""}'
         if kind == 'restore':
             chk.violation(E.violation_key(cfg, [], d, 'restore'),
                           f'{what}: the run resumed from the snapshot written after {n1} instructions does not start in the state that run '
-                          f'ended in: {d[:5]}', E.replay_data(cfg, img, regs, hw, n, n1, by_options))
+                          f'ended in: {d[:5]}', E.replay_data(cfg, img, regs, hw, n, n1, by_options, extra))
             continue
-        causes = E.diagnose(tools, cfg, img, regs, hw, n, n1, by_options)
+        causes = E.diagnose(tools, cfg, img, regs, hw, n, n1, by_options, extra)
         key = E.violation_key(cfg, causes, d)
         chk.violation(key, f'{what}: running {n} instructions vs {n1} + snapshot + '
                            f'{n - n1}: final state differs in {d[:5]}' + (f' (explained by the dropped {"/".join(causes)})' if causes else ''),
-                      E.replay_data(cfg, img, regs, hw, n, n1, by_options))
+                      E.replay_data(cfg, img, regs, hw, n, n1, by_options, extra))
 
 
 def e2e(chk, tools):
@@ -355,6 +355,25 @@ def e2e(chk, tools):
                 bad = E.check_case(tools, cfg, img, regs, hw, n, n1s)
                 chk.case(f'e2e:witness:{wname}', ('w', wname, fmt, py), {'witness': wname, 'fmt': fmt, 'python': py, 'failing splits': [b[0] for b in bad]})
                 report(chk, tools, cfg, img, regs, hw, n, bad, wname)
+    # directed state sweep, every run: each bit of each register / hardware field set by the program between splits
+    for dname, d in E.DIRECTED.items():
+        for fmt in d['formats']:
+            for py in d['pythons']:
+                if not (tools.have_c or py):
+                    py = True
+                img, regs, hw, n, n1s = d['build']()
+                cfg = (d['machine'], fmt, d['cmio'], py)
+                bad = E.check_case(tools, cfg, img, regs, hw, n, n1s, False, d.get('extra', ()))
+                chk.case(f'e2e:directed:{dname}', ('d', dname, fmt, py), {'directed': dname, 'fmt': fmt, 'python': py, 'splits': n1s, 'failing splits': [b[0] for b in bad]} if fmt == 'szx' else None)
+                chk.evaluations += max(0, len(n1s) - 1)
+                report(chk, tools, cfg, img, regs, hw, n, bad, dname, False, d.get('extra', ()))
+    for machine in ('48K', '128K'):
+        for fmt in ('szx', 'z80'):
+            for t, img, regs, hw, n, n1s in E.tstate_sweep(machine):
+                cfg = (machine, fmt, False, not tools.have_c)
+                bad = E.check_case(tools, cfg, img, regs, hw, n, n1s, True)
+                chk.case(f'e2e:directed:tstates:{fmt}:{machine}', ('dt', machine, fmt, t), {'directed': 'tstates', 'machine': machine, 'fmt': fmt, 'T': t} if t == 0 else None)
+                report(chk, tools, cfg, img, regs, hw, n, bad, f'tstates={t}', True)
     total = chk.scale(96, 1300)
     weights = [g for g in E.GENERATORS for _ in range(g[2])]
     for k in range(total):
@@ -391,7 +410,10 @@ def run(chk):
                 'lock/AY) x EVERY split point n1 in 1..N-1 x {szx,z80} x {48K,128K} x {plain,-c} x {C,--python} on the real trace.main; '
                 'a case is non-trivial/distinct by (config, registers, hardware state, N). correspondence: random/boundary machine states '
                 'through the real get_state/write_snapshot/Snapshot.get/from_snapshot/trace.run start-up; accept_interrupt on 4 '
-                'implementations; Tracer.run / CSimulator.trace on generated programs vs the loop models')
+                'implementations; Tracer.run / CSimulator.trace on generated programs vs the loop models. directed state sweep (every run): a program '
+                'that sets every bit of every register incl. alternates/IX/IY/SP/I/R, 128K hardware fields (0x7FFD bits 6-7 and lock, AY 14/15, '
+                'fffd >= 16, last OUT to 0xFE), 48K AY registers 14/15 and fffd alone, HALT with DI in IM 0, the border list kept under --audio, '
+                'start clocks on the quarter-frame / 16-bit boundaries of the .z80 and SZX encodings of the frame position')
     chk.trusted += ['translator translate/py2lean.py (validated per slot each run by C06/C08)',
                     'translate/gen_tshift.py emits theorem statements only (a wrong statement cannot make a false theorem check)',
                     'hand models Model/TraceLoop.lean, Model/SnapResume.lean tied by correspondence each run',
@@ -447,7 +469,7 @@ def replay(chk, data):
         pass
     tools = E.Tools(trace, snapshot, chk.scratch, c_classes)
     cfg, img, regs, hw, n, n1, by_options = E.from_replay(data)
-    bad = E.check_case(tools, cfg, img, regs, hw, n, [n1], by_options)
+    bad = E.check_case(tools, cfg, img, regs, hw, n, [n1], by_options, tuple(data.get('extra', ())))
     for b in bad:
         print(f'  split {b[0]}: {b[1][:6]}')
     return bool(bad)
